@@ -140,6 +140,16 @@ def check(report: Report, repo: Repo) -> None:
         raised = [e["exc"] for e in it.events if e.kind == "raise"]
         bad = not (got is BOTTOM and raised and all(x == "ValueError" for x in raised))
         report.add("R2-lookup-domain", f"{base}::lookup-domain[{nm}]", not bad, f"'{nm}' is bound in constraints.py but is not a constraint rule: apply_constraint('{nm}', ...) must raise ValueError", ("accepted: " + fmt(got)[:80]) if bad else "ValueError", "ValueError", nontrivial=bad)
+    # an unknown name is rejected whatever the scales are: also when they coincide, and for a single scale
+    for lab_, scs in (("two equal scales", [s[0], s[0]]), ("one scale", [s[0]]), ("three equal scales", [s[0], s[0], s[0]]), ("distinct scales", [s[0], s[1]])):
+        it.events = []
+        try:
+            got = it.call_function(ac, ["no_such_constraint", *scs], {})
+        except Unsupported:
+            got = "unsupported"
+        raised = [e["exc"] for e in it.events if e.kind == "raise"]
+        ok_ = got is BOTTOM and raised and all(x == "ValueError" for x in raised)
+        report.add("R2-lookup-domain", f"{base}::unknown-name[{lab_}]", bool(ok_) if got != "unsupported" else None, f"apply_constraint('no_such_constraint', {lab_}) must raise ValueError", ("accepted: " + fmt(got)[:80]) if not ok_ else "ValueError", "ValueError")
     report.note("lookup_probe_names", n_probe)
     # also: the rule functions the docs name must exist
     for name in CONSTRAINTS:
